@@ -70,7 +70,9 @@ class SdRunner(ScenarioRunner):
                                 
                             
                         series.name = scenarios[scenario].scenario_manager + "_" + scenarios[scenario].name + "_" + equation
-                        plot_df[series.name] = series
+                        # scenarios may have different run specs: keep the union of their time grids instead of aligning every series to the first one
+                        plot_df = pd.concat([plot_df, series], axis=1, sort=True)
+                        plot_df.index.name = series.index.name
             
             simulation_results=[]
             if return_format=="dict" or return_format=="json":
